@@ -450,7 +450,7 @@ def run_threads(case) -> dict:
     from checks import threadpure
 
     r = random.Random(case["seed"])
-    kinds = ("ecdh", "ecdh", "ecdh", "kid") if case.get("first_use") else ("getkey", "getkey", "env", "resp", "kid", "params", "ecdh")
+    kinds = ("ecdh", "ecdh", "ecdh", "kid") if case.get("first_use") is True else ("getkey", "getkey", "env", "resp", "kid", "params", "ecdh")
     jobs = [[(r.choice(kinds), r.randrange(5000)) for _ in range(r.randint(3, 9))] for _ in range(case["n"])]
     out = threadpure.run("C11", "structures", case, jobs, _struct_job, case["seed"], case["policy"], baseline_after=bool(case.get("first_use")))
     out["probes"] = dict(out.get("probes") or {}, thread_structure_cases=1)
@@ -467,7 +467,7 @@ class C11(common.Check):
             "Judged: independent decode of every GetKey stub == API arguments == LibDC's decode, stub re-encoding; envelope bytes LibDC == "
             "RefDC; library decode of the reply and of nested KDF / FFC-DH parameters / DH / ECDH keys == independent decode and re-encodes "
             "identically; key identifiers in emitted blobs; 2..4 caller threads of one process encode / decode the structures at the same time "
-            "(pre-empted at PRNG-chosen line events inside dpapi_ng) and every result must equal the one computed alone; a reply whose name bytes are damaged (odd length, half a surrogate pair) followed "
+            "(pre-empted at PRNG-chosen line events inside dpapi_ng) and every result must equal the one computed alone (also as the first thing a new interpreter does, one child process per case); a reply whose name bytes are damaged (odd length, half a surrogate pair) followed "
             "by well-formed replies in the same process; key identifiers whose names differ only in case / normalisation form decoded one after "
             "the other; the GetKey stub for a security descriptor handed over as bytes / bytearray / memoryview, encoded twice; every structure (names that end in / contain U+0000 included) handed to the decoders as bytes, bytearray, read-only / writable memoryview and as a slice "
             "of a larger receive buffer. Non-trivial = every plan; distinct = distinct plan.")
@@ -477,7 +477,7 @@ class C11(common.Check):
     assumptions = ["structure values that no party can send in this protocol (e.g. an envelope with L1 = 2^32-1) are outside the technique and not claimed",
                    "NDR referent ids are free and compared through the decoder"]
     required_fired = tuple("sd_len_mod8_%d" % i for i in (0, 4)) + ("root_key_ptr_null", "root_key_ptr_set", "reply_seed", "reply_public") + \
-        tuple("env_len_mod8_%d" % i for i in range(8)) + ("envelope_boundary_values", "p521_public_key_decoded", "nil_guid_root_key_id", "thread_structure_cases", "thread_overlap", "damaged_name_then_valid", "key_identifier_histories", "codec_input_cases", "name_ending_in_nul_character")
+        tuple("env_len_mod8_%d" % i for i in range(8)) + ("envelope_boundary_values", "p521_public_key_decoded", "nil_guid_root_key_id", "thread_structure_cases", "thread_overlap", "damaged_name_then_valid", "key_identifier_histories", "codec_input_cases", "name_ending_in_nul_character", "thread_cases_in_new_process")
 
     def cases(self, tier, seed):
         rng = prng.stream(seed, "C11")
@@ -496,6 +496,10 @@ class C11(common.Check):
             out.append({"kind": "threads", "seed": rng.getrandbits(30), "n": 2 + k % 3, "policy": threadpure.policy_for(k, seams=False)})
         for k in range(600 if tier == "quick" else 30000):
             out.append({"kind": "codec-inputs", "seed": rng.getrandbits(30)})
+        # the same thread cases as the very first thing a new interpreter does with the library (all structure kinds; one child per case)
+        for k in range(64 if tier == "quick" else 2000):
+            out.append({"kind": "fresh", "inner": {"kind": "threads", "first_use": "all", "seed": rng.getrandbits(30), "n": 2 + k % 3,
+                                                   "policy": {"mode": "marks", "q": (0.2, 0.35, 0.5, 0.8)[k % 4], "p": (0.0, 0.02, 0.1)[(k // 4) % 3]} if k % 4 else {"mode": "prob", "p": (0.05, 0.3)[(k // 4) % 2]}}})
         return out
 
     def run_case(self, case):
@@ -507,6 +511,11 @@ class C11(common.Check):
             return run_kid_history(case)
         if case.get("kind") == "codec-inputs":
             return run_codec_inputs(case)
+        if case.get("kind") == "fresh":
+            v = common.run_case_fresh("C11", case["inner"])
+            if v:
+                v = {"sig": v["sig"] + "/new-process", "detail": "first use in a new process: " + v["detail"]}
+            return {"viol": v, "digest": "fresh:" + (v["sig"] if v else "ok"), "key": common.key_hash(case), "fired": {}, "probes": {"thread_cases_in_new_process": 1}, "vtime_ns": 0}
         tr_ref = P.execute_plan(case)
         tr_lib = P.execute_plan(dict(case, dc=dict(case["dc"], lib_codecs=True)))
         viol, probes = judge(case, tr_ref, tr_lib)
@@ -514,7 +523,7 @@ class C11(common.Check):
                 "probes": probes, "vtime_ns": tr_ref.world.stats.get("vtime_ns", 0)}
 
     def shrink(self, case):
-        if case.get("kind") in ("name-damage", "kid-history", "codec-inputs"):
+        if case.get("kind") in ("name-damage", "kid-history", "codec-inputs", "fresh"):
             return
         if case.get("kind") == "threads":
             pol = case["policy"]
@@ -539,7 +548,7 @@ class C11(common.Check):
                 yield dict(case, dc=dict(case["dc"], **{k: "d.test"}))
 
     def sample_repr(self, case, res):
-        if case.get("kind") in ("threads", "name-damage", "kid-history", "codec-inputs"):
+        if case.get("kind") in ("threads", "name-damage", "kid-history", "codec-inputs", "fresh"):
             return case
         rk = case["root_keys"][0]
         return {"root_key": rk[:3], "domain": case["dc"]["domain"], "forest": case["dc"]["forest"],
